@@ -513,6 +513,8 @@ class dictable(Dict):
             else:
                 f = kwargs_support(function)
                 res = type(self)([row for row in res if f(**row)])
+        if len(res) == 0: # a table rebuilt from no rows has lost its columns, which the filters below read
+            return type(self)([], self.keys())
         for key, value in filters.items():
             if value is None:
                 res = res[[r is None for r in res[key]]]
